@@ -20,7 +20,27 @@ pub mod seqx {
     }
 }
 use seqx::*;
-broadcast use seqx::lemma_cons;
+pub mod tstd {
+    use vstd::prelude::*;
+    use std::collections::{btree_map::Keys, BTreeMap};
+    // R8: `m.keys()` is emitted as `vx_btree_keys(m)`.  Trusted (std documentation of BTreeMap::keys: "an iterator
+    // over the keys of the map, in sorted order"): the keys come out strictly ascending and are exactly the domain.
+    pub uninterp spec fn keys_seq<'a>(m: &'a BTreeMap<u64, u64>) -> Seq<&'a u64>;
+
+    #[verifier::external_body]
+    pub fn vx_btree_keys<'a>(m: &'a BTreeMap<u64, u64>) -> (r: Keys<'a, u64, u64>)
+        ensures vstd::std_specs::iter::IteratorSpec::remaining(&r) == keys_seq(m),
+    { m.keys() }
+
+    pub broadcast axiom fn axiom_btree_keys_sorted<'a>(m: &'a BTreeMap<u64, u64>)
+        ensures
+            #![trigger keys_seq(m)]
+            forall|i: int, j: int| 0 <= i < j < keys_seq(m).len() ==> *keys_seq(m)[i] < *keys_seq(m)[j],
+            forall|i: int| 0 <= i < keys_seq(m).len() ==> m@.contains_key(*#[trigger] keys_seq(m)[i]),
+            forall|x: u64| m@.contains_key(x) ==> exists|i: int| 0 <= i < keys_seq(m).len() && *#[trigger] keys_seq(m)[i] == x;
+}
+use tstd::*;
+broadcast use {seqx::lemma_cons, tstd::axiom_btree_keys_sorted};
 
 //@include vx_prelude.rs
 
@@ -44,6 +64,13 @@ pub assume_specification<I: Iterator>[ <Peekable<I> as Iterator>::next ](p: &mut
         pk(old(p)).len() > 0 ==> r == Some(pk(old(p))[0]) && pk(final(p)) == pk(old(p)).drop_first();
 
 pub assume_specification<T>[ core::mem::drop ](x: T);
+
+// R8: `it.peekable()` is emitted as `vx_peekable(it)` (Iterator::peekable is a provided trait method and
+// cannot be given an assume_specification).  Trusted: the Peekable yields exactly what the iterator would.
+#[verifier::external_body]
+pub fn vx_peekable<I: Iterator>(it: I) -> (r: Peekable<I>)
+    ensures pk(&r) == vstd::std_specs::iter::IteratorSpec::remaining(&it),
+{ it.peekable() }
 
 //@extract struct MergeOnce
 //@ file: incremental-map/src/symmetric_fold.rs
@@ -221,10 +248,15 @@ impl<'a, I: Iterator<Item = &'a u64>, J: Iterator<Item = &'a u64>> MergeOnce<I, 
 //@ file: incremental-map/src/symmetric_fold.rs
 //@ impl: impl<I, J> MergeOnce<I, J>
 //@ name: new
-//@ external_body
 //@ as: fn new(a: I, b: J) -> (r: Self)
+//@ rule R8: `a.peekable()` => `vx_peekable(a)` x1
+//@ rule R8: `b.peekable()` => `vx_peekable(b)` x1
+//@ props: C18
 //@ contract:
-//@|     ensures r.fused is None,
+//@|     ensures
+//@|         r.fused is None, // [starts-unfused]
+//@|         r.va() == vstd::std_specs::iter::IteratorSpec::remaining(&a), // [left-stream-is-a]
+//@|         r.vb() == vstd::std_specs::iter::IteratorSpec::remaining(&b), // [right-stream-is-b]
 //@end
 
 //@extract fn MergeOnce::next
@@ -323,6 +355,201 @@ impl<'a> SymmetricDiff<'a> {
 //@|         diff_stream(old(self).rem(), self.self_@, self.other@) == cons((key, elem), diff_stream(self.rem(), self.self_@, self.other@)),
 //@|     decreases self.keys.va().len() + self.keys.vb().len(),
 //@end
+}
+
+
+// ---- the map-level entry points -------------------------------------------------------------------------
+
+// Trusted model of Iterator::fold for the (R3: inherent) iterator SymmetricDiff: `folded(items, init, f, r)` is
+// left uninterpreted and only ever introduced here, for exactly the stream `next` yields.
+pub uninterp spec fn folded<'a, R, F>(items: Seq<(&'a u64, DiffElement<&'a u64>)>, init: R, f: F, r: R) -> bool;
+
+impl<'a> SymmetricDiff<'a> {
+    #[verifier::external_body]
+    fn vx_fold<R, F: FnMut(R, (&'a u64, DiffElement<&'a u64>)) -> R>(self, init: R, f: F) -> (r: R)
+        requires self.inv(),
+        ensures folded(diff_stream(self.rem(), self.self_@, self.other@), init, f, r),
+    { unimplemented!() }
+}
+
+//@extract fn BTreeMap::symmetric_diff
+//@ file: incremental-map/src/symmetric_fold.rs
+//@ impl: impl<'a, K: Ord + 'a, V: PartialEq + 'a> SymmetricDiffMap<'a, K, V> for BTreeMap<K, V>
+//@ name: symmetric_diff
+//@ as: fn btree_symmetric_diff<'a>(this: &'a BTreeMap<u64, u64>, other: &'a BTreeMap<u64, u64>) -> (r: SymmetricDiff<'a>)
+//@ rule R3 re: `\bself\.keys\(\)` => `vx_btree_keys(this)` x1
+//@ rule R8 re: `\bother\.keys\(\)` => `vx_btree_keys(other)` x1
+//@ rule R3 re: `\bself\b` => `this` x1
+//@ props: C18
+//@ contract:
+//@|     ensures
+//@|         r.inv(), // [iterator-invariant-established]
+//@|         r.self_ == this && r.other == other, // [left-is-self-right-is-other]
+//@|         r.keys.va() == keys_seq(this) && r.keys.vb() == keys_seq(other), // [key-streams-are-the-two-key-sets]
+//@end
+
+//@extract fn BTreeMap::symmetric_fold
+//@ file: incremental-map/src/symmetric_fold.rs
+//@ impl: impl<K: Ord, V: PartialEq> SymmetricFoldMap<K, V> for BTreeMap<K, V>
+//@ name: symmetric_fold
+//@ as: fn btree_symmetric_fold<'a, R, F: FnMut(R, (&'a u64, DiffElement<&'a u64>)) -> R>(this: &'a BTreeMap<u64, u64>, other: &'a BTreeMap<u64, u64>, init: R, f: F) -> (r: R)
+//@ rule R3: `self.symmetric_diff(other)` => `btree_symmetric_diff(this, other)` x1
+//@ rule R8: `.fold(init, f)` => `.vx_fold(init, f)` x1
+//@ props: C18
+//@ contract:
+//@|     ensures
+//@|         folded(diff_stream(merged(keys_seq(this), keys_seq(other)), this@, other@), init, f, r), // [folds-f-over-exactly-the-symmetric-difference-of-self-and-other]
+//@end
+
+
+// ---- C18, composed: what the fold visits, stated over the two maps only --------------------------------
+spec fn keys_of<'a>(s: Seq<&'a u64>, m: Map<u64, u64>) -> bool {
+    &&& asc(s)
+    &&& forall|i: int| 0 <= i < s.len() ==> m.contains_key(*#[trigger] s[i])
+    &&& forall|x: u64| m.contains_key(x) ==> exists|i: int| 0 <= i < s.len() && *#[trigger] s[i] == x
+}
+
+spec fn visits<'a>(d: Seq<(&'a u64, DiffElement<&'a u64>)>, x: u64) -> bool {
+    exists|i: int| 0 <= i < d.len() && *(#[trigger] d[i]).0 == x
+}
+
+spec fn has_key<'a>(s: Seq<&'a u64>, x: u64) -> bool {
+    exists|i: int| 0 <= i < s.len() && *#[trigger] s[i] == x
+}
+
+proof fn lemma_diff_stream_general<'a>(rem: Seq<&'a u64>, m1: Map<u64, u64>, m2: Map<u64, u64>, lo: int)
+    requires asc(rem), forall|i: int| 0 <= i < rem.len() ==> lo < *#[trigger] rem[i],
+    ensures
+        ({
+            let d = diff_stream(rem, m1, m2);
+            &&& forall|i: int, j: int| 0 <= i < j < d.len() ==> *(#[trigger] d[i]).0 < *(#[trigger] d[j]).0
+            &&& forall|i: int| 0 <= i < d.len() ==> lo < *(#[trigger] d[i]).0
+            &&& forall|i: int| 0 <= i < d.len() ==> (#[trigger] d[i]).1 == tag_of::<'a>(m1, m2, *d[i].0)
+            &&& forall|x: u64| visits(d, x) <==> (has_key(rem, x) && !present_equal(m1, m2, x))
+        }),
+    decreases rem.len(),
+{
+    let d = diff_stream(rem, m1, m2);
+    if rem.len() == 0 {
+        assert forall|x: u64| visits(d, x) <==> (has_key(rem, x) && !present_equal(m1, m2, x)) by { }
+    } else {
+        let k = rem[0];
+        let tail = rem.drop_first();
+        lemma_asc_drop_first(rem);
+        assert forall|i: int| 0 <= i < tail.len() implies (*k as int) < *#[trigger] tail[i] by { }
+        lemma_diff_stream_general(tail, m1, m2, *k as int);
+        let rest = diff_stream(tail, m1, m2);
+        assert forall|i: int| 0 <= i < rest.len() implies lo < *(#[trigger] rest[i]).0 by { }
+        if present_equal(m1, m2, *k) {
+            assert(d == rest);
+            assert forall|x: u64| visits(d, x) <==> (has_key(rem, x) && !present_equal(m1, m2, x)) by {
+                if has_key(rem, x) && !present_equal(m1, m2, x) {
+                    let i = choose|i: int| 0 <= i < rem.len() && *#[trigger] rem[i] == x;
+                    assert(i > 0);
+                    assert(*tail[i - 1] == x);
+                    assert(has_key(tail, x));
+                }
+                if visits(d, x) {
+                    assert(has_key(tail, x));
+                    let i = choose|i: int| 0 <= i < tail.len() && *#[trigger] tail[i] == x;
+                    assert(*rem[i + 1] == x);
+                }
+            }
+        } else {
+            let e = (k, tag_of::<'a>(m1, m2, *k));
+            assert(d == cons(e, rest));
+            assert forall|i: int, j: int| 0 <= i < j < d.len() implies *(#[trigger] d[i]).0 < *(#[trigger] d[j]).0 by {
+                assert(d[j] == rest[j - 1]);
+                if i > 0 { assert(d[i] == rest[i - 1]); }
+            }
+            assert forall|i: int| 0 <= i < d.len() implies lo < *(#[trigger] d[i]).0 by {
+                if i > 0 { assert(d[i] == rest[i - 1]); }
+            }
+            assert forall|i: int| 0 <= i < d.len() implies (#[trigger] d[i]).1 == tag_of::<'a>(m1, m2, *d[i].0) by {
+                if i > 0 { assert(d[i] == rest[i - 1]); }
+            }
+            assert forall|x: u64| visits(d, x) <==> (has_key(rem, x) && !present_equal(m1, m2, x)) by {
+                if has_key(rem, x) && !present_equal(m1, m2, x) {
+                    let i = choose|i: int| 0 <= i < rem.len() && *#[trigger] rem[i] == x;
+                    if i == 0 {
+                        assert(*d[0].0 == x);
+                    } else {
+                        assert(*tail[i - 1] == x);
+                        assert(has_key(tail, x));
+                        assert(visits(rest, x));
+                        let j = choose|j: int| 0 <= j < rest.len() && *(#[trigger] rest[j]).0 == x;
+                        assert(d[j + 1] == rest[j]);
+                    }
+                }
+                if visits(d, x) {
+                    let i = choose|i: int| 0 <= i < d.len() && *(#[trigger] d[i]).0 == x;
+                    if i == 0 {
+                        assert(*rem[0] == x);
+                    } else {
+                        assert(d[i] == rest[i - 1]);
+                        assert(visits(rest, x));
+                        let j = choose|j: int| 0 <= j < tail.len() && *#[trigger] tail[j] == x;
+                        assert(*rem[j + 1] == x);
+                    }
+                }
+            }
+        }
+    }
+}
+
+/// C18 for BTreeMap / Rc<BTreeMap>: what `symmetric_fold` folds over (see contract of btree_symmetric_fold)
+/// is, for any two maps: ascending in the key, visits a key iff it is in exactly one map or in both with
+/// unequal values, each such key once, tagged Left / Right / Unequal(self's, other's); nothing when equal.
+proof fn lemma_symmetric_diff_characterisation<'a>(ka: Seq<&'a u64>, kb: Seq<&'a u64>, m1: Map<u64, u64>, m2: Map<u64, u64>)
+    requires keys_of(ka, m1), keys_of(kb, m2),
+    ensures
+        ({
+            let d = diff_stream(merged(ka, kb), m1, m2);
+            &&& forall|i: int, j: int| 0 <= i < j < d.len() ==> *(#[trigger] d[i]).0 < *(#[trigger] d[j]).0
+            &&& forall|i: int| 0 <= i < d.len() ==> (#[trigger] d[i]).1 == tag_of::<'a>(m1, m2, *d[i].0)
+            &&& forall|x: u64| visits(d, x) <==> ((m1.contains_key(x) || m2.contains_key(x)) && !present_equal(m1, m2, x))
+            &&& (m1 == m2 ==> d.len() == 0)
+        }),
+{
+    let rem = merged(ka, kb);
+    lemma_merged_ascending(ka, kb);
+    assert forall|i: int| 0 <= i < rem.len() implies -1 < *#[trigger] rem[i] by { }
+    lemma_diff_stream_general(rem, m1, m2, -1);
+    let d = diff_stream(rem, m1, m2);
+    assert forall|x: u64| has_key(rem, x) <==> (m1.contains_key(x) || m2.contains_key(x)) by {
+        if has_key(rem, x) {
+            let i = choose|i: int| 0 <= i < rem.len() && *#[trigger] rem[i] == x;
+            lemma_merged_contains(ka, kb, rem[i]);
+            assert(rem.contains(rem[i]));
+            if ka.contains(rem[i]) {
+                let j = choose|j: int| 0 <= j < ka.len() && ka[j] == rem[i];
+                assert(m1.contains_key(*ka[j]));
+            } else {
+                let j = choose|j: int| 0 <= j < kb.len() && kb[j] == rem[i];
+                assert(m2.contains_key(*kb[j]));
+            }
+        }
+        if m1.contains_key(x) {
+            let j = choose|j: int| 0 <= j < ka.len() && *#[trigger] ka[j] == x;
+            lemma_merged_contains(ka, kb, ka[j]);
+            assert(ka.contains(ka[j]));
+            let i = choose|i: int| 0 <= i < rem.len() && rem[i] == ka[j];
+            assert(*rem[i] == x);
+        }
+        if m2.contains_key(x) {
+            let j = choose|j: int| 0 <= j < kb.len() && *#[trigger] kb[j] == x;
+            lemma_merged_contains(ka, kb, kb[j]);
+            assert(kb.contains(kb[j]));
+            let i = choose|i: int| 0 <= i < rem.len() && rem[i] == kb[j];
+            assert(*rem[i] == x);
+        }
+    }
+    if m1 == m2 {
+        if d.len() > 0 {
+            assert(visits(d, *d[0].0));
+            assert(false);
+        }
+    }
 }
 
 } // verus!
